@@ -190,7 +190,9 @@ def gen(rng, index, tier):
         "phases": phases,
         "rewriter": rng.choice(["noop", "default"]),
         "command": {"cmd": "apply" if (force_apply or rng.random() < 0.08) else "stub", "verbose": rng.random() < 0.5, "module": target_mod, "qualname": qual,
-                    "flag": rng.choice(["default", "default", "ignore"])},
+                    "flag": rng.choice(["default", "default", "ignore"]),
+                    # the project's configuration uses its own store class that implements only the required add / filter
+                    "minimal_store": rng.random() < 0.3},
     }
 
 
@@ -343,7 +345,7 @@ def run_command(plan, db_path, k, src_path=None, original=None):
     if src_path and original is not None and os.path.exists(os.path.dirname(src_path)):
         with open(src_path, "w") as fh:
             fh.write(original)
-    rc, out, err, exc = E.run_cli(tail, db_path, k, plan["rewriter"], pre)
+    rc, out, err, exc = E.run_cli(tail, db_path, k, plan["rewriter"], pre, minimal_store=bool(c.get("minimal_store")))
     after = None
     if src_path and os.path.exists(src_path):
         with open(src_path) as fh:
